@@ -94,8 +94,20 @@ func (rt *peerRT) RoundTrip(req *http.Request) (*http.Response, error) {
 		rec.WriteHeader(500)
 		rec.WriteString("internal error")
 	case "http400":
-		rec.WriteHeader(400)
-		rec.WriteString("i'm not leader, so can't tell you revision")
+		// the election record names a peer that is not leading (stale record, hand-over window): the
+		// request reaches the real /status handler of a non-leader - the asking follower's own
+		served := false
+		for _, sn := range n.Servers {
+			if sn.ID == rt.from && !sn.LE.IsLeader() {
+				sn.Status.ServeHTTP(rec, req)
+				n.Served = append(n.Served, PeerServe{From: rt.from, Host: sn.Addr, Step: s.StepNo(), Revision: sn.B.GetCurrentRevision(), Code: rec.Code})
+				served = true
+			}
+		}
+		if !served {
+			rec.WriteHeader(400)
+			rec.WriteString("i'm not leader, so can't tell you revision")
+		}
 	default:
 		target.Status.ServeHTTP(rec, req)
 		n.Served = append(n.Served, PeerServe{From: rt.from, Host: req.URL.Host, Step: s.StepNo(), Revision: target.B.GetCurrentRevision(), Code: rec.Code})
